@@ -2648,6 +2648,11 @@ func (s *Translator) buildExpansionPatternRoot(traversalStepContext TraversalSte
 					expansionRootID,
 				),
 			)
+
+			// The seed applies the bound-node constraints to pick the distinct roots. Rows of the previous frame that
+			// share a root but fail a constraint on another of their bindings (MATCH (a)-[r]->() MATCH (a)-[*]->(b)
+			// WHERE r.x = 1) must not be joined to the expansion either.
+			projectionConstraints = pgsql.OptionalAnd(projectionConstraints, expansionModel.PrimerNodeConstraints)
 		}
 		if previousProjectionFrameID != "" && traversalStep.RightNodeBound && !isUnboundSelfLoop(traversalStep) {
 			projectionConstraints = pgsql.OptionalAnd(
